@@ -179,10 +179,14 @@ def check_register(case, ctx: Ctx):
 
 @st.composite
 def mappable_cases(draw):
-    cs = draw(coord_sets(min_n=2, max_n=9))
+    cs = draw(coord_sets(min_n=2, max_n=13))
     n = len(cs["coords"])
     nq = draw(st.integers(1, n))
     prefix = draw(st.sampled_from(["q", "a", ""]))
+    if draw(st.integers(0, 2)) == 0:
+        # ids declared explicitly, in an order that is not the sorted one
+        pool = ["ctrl", "anc", "tgt", "b", "a", "q10", "q2", "Z", "z", "10", "9", "x y", "q", ""]
+        cs["ids"] = list(draw(st.permutations(pool)))[:nq]
     k = draw(st.integers(1, nq))
     traps = draw(st.permutations(list(range(n))))[:k]
     # mapping must be over the first k declared ids, given in any order
@@ -199,11 +203,20 @@ def check_mappable(case, ctx: Ctx):
     nq, k = case["n_qubits"], case["k"]
     ctx.label(f"dim{case['dim']}", "partial" if k < nq else "full")
     ctx.nontrivial(len(coords) >= 3 and has_x_tie(coords) and k >= 2)
-    mreg = ctx.must(
-        lambda: lay.make_mappable_register(nq, prefix=case["prefix"]), C,
-        "make_mappable_register",
-    )
-    declared = [f"{case['prefix']}{i}" for i in range(nq)]
+    if case.get("ids"):
+        from pulser.register.mappable_reg import MappableRegister
+
+        mreg = ctx.must(lambda: MappableRegister(lay, *case["ids"]), C, "MappableRegister")
+        declared = list(case["ids"])
+        ctx.label("explicit_ids")
+    else:
+        mreg = ctx.must(
+            lambda: lay.make_mappable_register(nq, prefix=case["prefix"]), C,
+            "make_mappable_register",
+        )
+        declared = [f"{case['prefix']}{i}" for i in range(nq)]
+    if declared[:k] != sorted(declared[:k]):
+        ctx.label("declared_order_not_sorted")
     if list(mreg.qubit_ids) != declared:
         ctx.fail(C, "declared_ids", f"{mreg.qubit_ids}")
     mapping = {declared[i]: case["traps"][i] for i in case["order"]}
